@@ -394,6 +394,24 @@ def h_allshots(env, ops, n, shots, init_index):
     env.check_same(sorted(freqs), sorted({k[nm:] for k in allf}), "returned frequencies carry the final bits")
 
 
+def h_desired_shots(env, ops, n, outcome, shots, init_index):
+    """finite n_shots TOGETHER with desired_meas_result (the shot-by-shot loop that repeats until the requested outcomes occur), from an
+    initial basis state for which the requested outcomes are CERTAIN (and impossible from |0..0>): the call returns, the returned
+    statevector is the branch state of the evolution from THAT state, and the recorded outcome string is the requested one"""
+    from tangelo.linq import Circuit
+    B = Builder(env)
+    circ = Circuit(B.gates(ops), n_qubits=n)
+    psi = R.basis_state(n, init_index)
+    b = make_backend(env, n_shots=shots)
+    phi, _ = run_branch(B, ops, n, psi, list(outcome))
+    env.check_eq(norm2(phi), 1, "harness premise: the requested outcomes are certain from the initial state")
+    freqs, sv = b.simulate(circ, desired_meas_result=outcome, return_statevector=True, initial_statevector=as_array(env, psi))
+    env.check_vec_eq(list(sv), phi, f"n_shots={shots} with desired_meas_result={outcome} from |{R.bitstring(init_index, n)}>: statevector == branch state")
+    check = {R.bitstring(i, n): a * R.n_conj(a) for i, a in enumerate(phi)}
+    if shots == 1:
+        env.check_true(len(freqs) == 1 and not R.is_zero(check[list(freqs)[0]]), "the single recorded sample is possible in the branch state", detail=str(freqs))
+
+
 def _first_meas(ops):
     for i, op in enumerate(ops):
         if op[0] != "g":
@@ -594,6 +612,13 @@ def shapes(tier, seed):
     for (n_, ii) in ((10, None), (10, 5), (9, None)) + (((11, 1027),) if tier == "thorough" else ()):
         wo = [op for op in wide_ops if n_ > 9 or 9 not in (list(op[2]) + list(op[3]) if op[0] == "g" else [op[1]])]
         out.append(Shape(f"allshots/wide{n_}/shots2/init={ii}", h_allshots, dict(ops=wo, n=n_, shots=2, init_index=ii), modules=MODS, max_paths=64))
+    ds_ops = {"m-then-rot": ([("m", 0), ("g", "RX", [1], []), ("g", "CRY", [1], [0])], 2, "1", 2),
+              "x-m-m": ([("g", "X", [1], []), ("m", 1), ("g", "RY", [0], []), ("m", 2), ("g", "CNOT", [0], [2])], 3, "01", 3),
+              "cm": ([("cm", 1, {"0": [("g", "X", [0], [])], "1": [("g", "RX", [0], [])]}), ("g", "H", [1], [])], 2, "1", 1)}
+    for nm_, (ops_, n_, oc_, ii_) in ds_ops.items():
+        for shots_ in (1, 3):
+            out.append(Shape(f"desired-shots/{nm_}/{oc_}/shots{shots_}/init={ii_}", h_desired_shots,
+                             dict(ops=ops_, n=n_, outcome=oc_, shots=shots_, init_index=ii_), modules=MODS, max_paths=64))
     out.append(Shape("canary/desired/sign", h_desired, dict(ops=SHAPES1["m0"][0], n=2, outcome="1", init=False, canary=True),
                      modules=MODS, canary=True))
     for nm in ("m0", "m1-m0", "3q"):
